@@ -30,6 +30,7 @@ var c07Menu = []string{
 	"\n", "  \n", "\t\n",
 	"cat <<E\"O\"F\n`\nEOF\n", "cat <<E\\F\n$(\nEF\n", "cat <<E''\n${\nE\n", "cat <<E'F' <<G\n$(\nEF\n$v\nG\n",
 	"cat <<E | # c\nx\nE\nb\n", "cat <<E && # c\nx\nE\nb\n", "case x in a) cat <<E ;; # c\nx\nE\nesac\n", "cat <<E | # c\n\nx\nE\nb <<F\ny\nF\n",
+	"a && b \\\n# c\n", "a | b \\\n#c\n", "a \\\n# c\n", "{ a && b \\\n# c\nd\n}\n",
 	"a 'q\nq'\n", "a \"d\n$v\"\n", "a $(b\nc)\n", "a `b\nc`\n", "a $((1 +\n2))\n", "a ${v:-w\nw}\n", "a $(cat <<E\nx\nE\n)\n",
 }
 
